@@ -210,6 +210,17 @@ def run(c):
             c.finding_or_violation(cz("the launch fails or the target does not run", error=str(o.get("error"))[:60]), {"case": x, "observed": o}, klass="container-ids")
         elif st["uid"] != [wu] * 3 or st["gid"] != [wg] * 3:
             c.finding_or_violation(cz("the program's ids inside the container are not the configured ones", uid=st["uid"], gid=st["gid"]), {"case": x, "observed": o}, klass="container-ids")
+    # ---- launches with different explicit id mappings at the same time: every program is under the mapping of ITS configuration
+    cio = c.run_harness(exe, [{"id": 30000, "mode": "concurrent_idmaps", "workers": 8, "rounds": 60 if c.quick() else 600}], env=env, timeout=900)[0]
+    if "harness_err" in cio:
+        raise RuntimeError(cio["harness_err"])
+    c.count("concurrent-idmaps", nontrivial=True, klass="concurrent-idmaps")
+    c.cov["concurrent_idmap_launches"] = cio["launches"]
+    if cio["wrong"]:
+        w0 = cio["wrong"][0]
+        c.finding_or_violation({"kind": "secstate", "what": "a program started in a new user namespace is under an id mapping other than the configured one (launches running at the same time)",
+                                "failed_to_start": bool(w0["Err"])}, {"workers": 8, "mapping_of_worker_w": "uid 0 -> 1000+w (w+1 ids), gid 0 -> 3000+w (w+1 ids)",
+                                                                      "wrong_launches": cio["wrong"]}, klass="concurrent-idmaps")
     c.cov["container_launch_histories"] = nhist
     c.sample({"configuration": cases[300], "probe_report": {k: v for k, v in (obs[300].get("state") or {}).items() if k != "ns"}, "stops": obs[300].get("stops")})
     dis = []
